@@ -64,6 +64,10 @@ pub struct ReqC7 {
     pub open: bool,
     pub inst: usize,
     pub behav: Behav,
+    /// re-use the client order id of an earlier request of the same kind on another instrument
+    /// (an order is identified by exchange, instrument, strategy *and* client order id)
+    #[serde(default)]
+    pub twin_of: Option<usize>,
 }
 
 #[derive(Clone, Debug, Serialize, Deserialize)]
@@ -150,6 +154,7 @@ impl Sim for SimC7 {
                 }
             };
             reqs.push(ReqC7 {
+                twin_of: if sub == 1 && n_inst > 1 && rng.chance(1, 6) { Some(rng.usize(64)) } else { None },
                 at_ms: t,
                 open: rng.chance(3, 5),
                 inst: rng.usize(n_inst),
@@ -191,7 +196,29 @@ impl Sim for SimC7 {
         let mut violation: Option<Violation> = None;
         let instruments = c7_instruments(sc.n_inst);
         let n_inst = instruments.instruments().len();
-        let reqs: Vec<&ReqC7> = sc.reqs.iter().filter(|r| r.inst < n_inst).collect();
+        let reqs0: Vec<&ReqC7> = sc.reqs.iter().filter(|r| r.inst < n_inst).collect();
+        // effective requests: a twin shares the client order id (and therefore the scripted client
+        // behaviour, which is keyed by it) of an earlier, non-twin request on another instrument
+        let mut cids: Vec<String> = Vec::new();
+        let mut reqs_eff: Vec<ReqC7> = Vec::new();
+        for (k, r) in reqs0.iter().enumerate() {
+            let mut e = (*r).clone();
+            // at most one twin per source, and the source is not a twin itself
+            let src = r.twin_of.filter(|_| k > 0).map(|t| t % k).filter(|j| {
+                let id = format!("r{j}");
+                reqs0[*j].inst != r.inst && reqs0[*j].open == r.open && cids[*j] == id && cids.iter().filter(|c| **c == id).count() == 1
+            });
+            match src {
+                Some(j) => {
+                    e.behav = reqs_eff[j].behav;
+                    cids.push(format!("r{j}"));
+                }
+                None => cids.push(format!("r{k}")),
+            }
+            reqs_eff.push(e);
+        }
+        let reqs: Vec<&ReqC7> = reqs_eff.iter().collect();
+        let inst_name = |i: usize| instruments.instruments()[i].value.name_exchange.name().to_string();
         let timeout = sc.timeout_ms;
         let last_send = reqs.iter().map(|r| r.at_ms).max().unwrap_or(0);
 
@@ -203,7 +230,7 @@ impl Sim for SimC7 {
                 let behav: HashMap<String, Behav> = reqs
                     .iter()
                     .enumerate()
-                    .map(|(k, r)| (format!("r{k}"), r.behav))
+                    .map(|(k, r)| (cids[k].clone(), r.behav))
                     .collect();
                 let (client, _acct_tx) = SimClient::new_client(
                     EXS[0],
@@ -264,7 +291,7 @@ impl Sim for SimC7 {
                 for (k, r) in reqs.iter().enumerate() {
                     tokio::time::sleep_until(start + Duration::from_millis(r.at_ms)).await;
                     sent_at.push(start.elapsed().as_millis() as u64);
-                    let key = okey(0, r.inst, &format!("r{k}"));
+                    let key = okey(0, r.inst, &cids[k]);
                     let req = if r.open {
                         ExecutionRequest::Open(request_open(key, true, dec(100), dec(2), OrderKind::Limit))
                     } else {
@@ -334,15 +361,18 @@ impl Sim for SimC7 {
             }
             // requests reach the client exactly once each
             for (k, r) in reqs.iter().enumerate() {
-                let cid = format!("r{k}");
-                let n = received.iter().filter(|x| x.cid == cid).count();
+                let cid = cids[k].clone();
+                let n = received.iter().filter(|x| x.cid == cid && x.instrument == inst_name(r.inst)).count();
+                if cids.iter().filter(|c| **c == cid).count() > 1 {
+                    stats.probe("client_order_id_shared_by_two_instruments");
+                }
                 let closed_before = sc.close_rx_at.is_some_and(|c| c <= r.at_ms + timeout);
                 if n != 1 && !closed_before {
                     fail!('chk, "E1_request_not_forwarded_once", k, "request {cid} reached the client {n} times");
                 }
             }
             for (k, r) in reqs.iter().enumerate() {
-                let cid = format!("r{k}");
+                let cid = cids[k].clone();
                 log.sig(if r.open { "o" } else { "c" });
                 log.sig(match r.behav.delay_ms {
                     None => "never",
@@ -369,8 +399,8 @@ impl Sim for SimC7 {
                     .iter()
                     .filter(|g| match &g.ev {
                         AccountStreamEvent::Item(ev) => match &ev.kind {
-                            AccountEventKind::OrderSnapshot(s) => s.0.key.cid.0.as_str() == cid,
-                            AccountEventKind::OrderCancelled(c) => c.key.cid.0.as_str() == cid,
+                            AccountEventKind::OrderSnapshot(s) => s.0.key.cid.0.as_str() == cid && s.0.key.instrument == InstrumentIndex(r.inst),
+                            AccountEventKind::OrderCancelled(c) => c.key.cid.0.as_str() == cid && c.key.instrument == InstrumentIndex(r.inst),
                             _ => false,
                         },
                         _ => false,
@@ -379,7 +409,7 @@ impl Sim for SimC7 {
                 // when must it be resolved, and how (measured from the instant it was actually sent)
                 let s_at = received
                     .iter()
-                    .find(|x| x.cid == cid)
+                    .find(|x| x.cid == cid && x.instrument == inst_name(r.inst))
                     .map(|x| x.at_ms)
                     .unwrap_or_else(|| sent_at.get(k).copied().unwrap_or(r.at_ms));
                 let (mut resolve_at, mut by_client): (u64, Option<bool>) = match r.behav.delay_ms {
@@ -577,6 +607,7 @@ impl Sim for SimC7 {
             "response_at_timeout_instant",
             "64_outstanding",
             "several_responses_same_instant",
+            "client_order_id_shared_by_two_instruments",
             "resolution_inside_clock_jump",
         ]
     }
@@ -618,6 +649,9 @@ pub enum OpC4 {
     /// an order report naming instrument `inst` (exchange X, by name) that arrives on the link of a
     /// *different* exchange: it must not be applied to anything of that other exchange
     ForeignOrderReport { inst: usize },
+    /// two open requests in flight at once on two instruments of one exchange, sharing the client
+    /// order id (orders are identified by exchange, instrument, strategy and client order id)
+    OpenPair { a: usize, b: usize },
 }
 
 #[derive(Clone, Debug, Serialize, Deserialize)]
@@ -629,6 +663,10 @@ pub struct ScenarioC4 {
     pub ops: Vec<OpC4>,
     pub tokio_seed: u64,
     pub client_delay_ms: u64,
+    /// per instrument index: the exchange's initial account snapshot lists the instrument with one
+    /// open order (true) or with no orders (false); empty = snapshots list no instruments at all
+    #[serde(default)]
+    pub snap_orders: Vec<bool>,
 }
 
 pub struct SimC4;
@@ -729,6 +767,7 @@ impl Sim for SimC4 {
             ops: vec![],
             tokio_seed: 0,
             client_delay_ms: 0,
+            snap_orders: vec![],
         };
         let ii = c4_instruments(&tmp);
         let (n_inst, n_assets) = (ii.instruments().len(), ii.assets().len());
@@ -760,12 +799,20 @@ impl Sim for SimC4 {
                 },
             });
         }
+        if n_inst > 1 && rng.chance(1, 2) {
+            // (invalid pairs - different exchanges, untraded exchange - are skipped at run time)
+            for _ in 0..(1 + rng.usize(3)) {
+                let at = rng.usize(ops.len() + 1);
+                ops.insert(at, OpC4::OpenPair { a: rng.usize(n_inst), b: rng.usize(n_inst) });
+            }
+        }
         ScenarioC4 {
             untraded,
             insts,
             ops,
             tokio_seed: rng.next_u64(),
             client_delay_ms: *rng.pick(&[0u64, 0, 1, 7]),
+            snap_orders: if rng.chance(1, 2) { (0..n_inst).map(|_| rng.chance(1, 2)).collect() } else { vec![] },
         }
     }
 
@@ -886,13 +933,47 @@ impl Sim for SimC4 {
                 for k in 0..ops.len() {
                     b.insert(format!("q{k}"), Behav { delay_ms: Some(delay), resp: Resp::OkOpen });
                 }
+                let listed: Vec<barter_execution::InstrumentAccountSnapshot<ExchangeId, barter_instrument::asset::name::AssetNameExchange, barter_instrument::instrument::name::InstrumentNameExchange>> = if sc.snap_orders.is_empty() {
+                    vec![]
+                } else {
+                    instruments
+                        .instruments()
+                        .iter()
+                        .filter(|i| i.value.exchange.key == ex.key)
+                        .map(|i| barter_execution::InstrumentAccountSnapshot {
+                            instrument: i.value.name_exchange.clone(),
+                            orders: if sc.snap_orders.get(i.key.0).copied().unwrap_or(false) {
+                                vec![Order {
+                                    key: OrderKey {
+                                        exchange: ex.value,
+                                        instrument: i.value.name_exchange.clone(),
+                                        strategy: strategy_id(),
+                                        cid: ClientOrderId::new(format!("snap{}", i.key.0)),
+                                    },
+                                    side: Side::Buy,
+                                    price: dec(100),
+                                    quantity: dec(1),
+                                    kind: OrderKind::Limit,
+                                    time_in_force: TimeInForce::GoodUntilCancelled { post_only: false },
+                                    state: OrderState::active(Open {
+                                        id: OrderId::new(format!("x-snap{}", i.key.0)),
+                                        time_exchange: ts(0),
+                                        filled_quantity: dec(0),
+                                    }),
+                                }]
+                            } else {
+                                vec![]
+                            },
+                        })
+                        .collect()
+                };
                 let (client, acct_tx) = SimClient::new_client(
                     ex.value,
                     b,
                     UnindexedAccountSnapshot {
                         exchange: ex.value,
                         balances: vec![],
-                        instruments: vec![],
+                        instruments: listed,
                     },
                 );
                 let slot = EXS.iter().position(|x| *x == ex.value).unwrap_or(0);
@@ -929,6 +1010,23 @@ impl Sim for SimC4 {
             while let Ok(ev) = merged_rx.rx.try_recv() {
                 let _ = engine.process(EngineEvent::<DataKind>::Account(ev));
             }
+            // orders listed by an exchange's account snapshot land on exactly the instrument named
+            if !sc.snap_orders.is_empty() {
+                probes.push("account_snapshot_lists_instruments");
+                for j in 0..n_inst {
+                    let e = instruments.instruments()[j].value.exchange.key.0;
+                    if !traded[e] {
+                        continue;
+                    }
+                    let want = sc.snap_orders.get(j).copied().unwrap_or(false);
+                    for x in 0..n_inst {
+                        let has = engine.state.instruments.instrument_index(&InstrumentIndex(x)).orders.0.contains_key(&ClientOrderId::new(format!("snap{j}")));
+                        if has != (want && x == j) {
+                            return (Some(("X7_event_applied_to_wrong_item".to_string(), j, format!("initial account snapshot of exchange {e} lists instrument index {j} = {} {}: afterwards instrument index {x} {} the order", instruments.instruments()[j].value.name_exchange, if want { "with one open order" } else { "without orders" }, if has { "tracks" } else { "does not track" }))), lines, sigs, probes, 0);
+                        }
+                    }
+                }
+            }
 
             let mut t_ms = 10i64;
             for (k, op) in ops.iter().enumerate() {
@@ -940,6 +1038,13 @@ impl Sim for SimC4 {
                     | OpC4::ForeignOrderReport { inst }
                     | OpC4::Trade { inst, .. } => *inst < n_inst,
                     OpC4::Balance { asset, .. } => *asset < n_assets,
+                    OpC4::OpenPair { a, b } => {
+                        *a < n_inst
+                            && *b < n_inst
+                            && a != b
+                            && instruments.instruments()[*a].value.exchange.key == instruments.instruments()[*b].value.exchange.key
+                            && traded[instruments.instruments()[*a].value.exchange.key.0]
+                    }
                 };
                 if !valid {
                     continue;
@@ -951,6 +1056,7 @@ impl Sim for SimC4 {
                     OpC4::OrderReport { inst } => format!("r{inst}"),
                     OpC4::ForeignOrderReport { inst } => format!("fr{inst}"),
                     OpC4::Trade { inst, .. } => format!("t{inst}"),
+                    OpC4::OpenPair { a, .. } => format!("p{}", instruments.instruments()[*a].value.exchange.key.0),
                 });
                 let recv_before: Vec<usize> = clients.iter().map(|c| c.0.received.lock().unwrap().len()).collect();
                 let before = engine.state.clone();
@@ -1037,6 +1143,35 @@ impl Sim for SimC4 {
                         }
                         if n_ex > 1 && ex > 0 {
                             probes.push("request_to_non_first_exchange");
+                        }
+                    }
+                    OpC4::OpenPair { a, b } => {
+                        probes.push("two_requests_share_client_order_id");
+                        let ex = instruments.instruments()[*a].value.exchange.key.0;
+                        for inst in [*a, *b] {
+                            let cmd = Command::SendOpenRequests(OneOrMany::One(request_open(okey(ex, inst, &cid), true, dec(100), dec(1), OrderKind::Limit)));
+                            let _ = engine.process(EngineEvent::<DataKind>::Command(cmd));
+                        }
+                        tokio::time::sleep(Duration::from_millis(delay + 1)).await;
+                        let mut got: Vec<(usize, usize)> = Vec::new();
+                        while let Ok(ev) = merged_rx.rx.try_recv() {
+                            if let AccountStreamEvent::Item(item) = &ev {
+                                if let AccountEventKind::OrderSnapshot(s) = &item.kind {
+                                    got.push((s.0.key.exchange.0, s.0.key.instrument.0));
+                                }
+                            }
+                            let _ = engine.process(EngineEvent::<DataKind>::Account(ev));
+                        }
+                        got.sort();
+                        let mut want = vec![(ex, *a), (ex, *b)];
+                        want.sort();
+                        if got != want {
+                            return (Some(("X6_response_attribution".to_string(), k, format!("two opens with client order id {cid} in flight on instruments {a} and {b} of exchange {ex}: responses were indexed as (exchange, instrument) {got:?}"))), lines, sigs, probes, 0);
+                        }
+                        for inst in [*a, *b] {
+                            if !engine.state.instruments.instrument_index(&InstrumentIndex(inst)).orders.0.contains_key(&ClientOrderId::new(cid.as_str())) {
+                                return (Some(("X7_event_applied_to_wrong_item".to_string(), k, format!("order {cid} for instrument {inst} is not tracked under that instrument after its response"))), lines, sigs, probes, 0);
+                            }
                         }
                     }
                     OpC4::Balance { asset, total } => {
@@ -1295,6 +1430,8 @@ impl Sim for SimC4 {
     fn probe_kinds(&self) -> Vec<&'static str> {
         vec![
             "request_to_non_first_exchange",
+            "account_snapshot_lists_instruments",
+            "two_requests_share_client_order_id",
             "asset_name_shared_between_exchanges",
             "instrument_name_shared_between_exchanges",
             "request_for_untraded_exchange",
